@@ -76,6 +76,8 @@ type SE string
 const (
 	SA SE = "va"
 	SB SE = "it's"
+	SC SE = "Repas"
+	SD SE = "a Table1 b"
 )
 type Repas struct {
 	Id int64
@@ -211,6 +213,11 @@ func runC16(r *rep.Report, thorough bool) error {
 					eq := []string{" = ", "=", "  =  ", " =\t"}[rng.Intn(4)]
 					q += fields[rng.Intn(len(fields))] + eq + "$" + names[rng.Intn(len(names))] + "$"
 				}
+				// further uses of the variables, not of the form `field = $name$`
+				for j, m := 0, rng.Intn(3); j < m; j++ {
+					op := []string{" < ", " >= ", " <> ", " LIKE "}[rng.Intn(4)]
+					q += " AND " + fields[rng.Intn(len(fields))] + op + "$" + names[rng.Intn(len(names))] + "$"
+				}
 				qt = append(qt, q+";")
 			}
 		}
@@ -311,6 +318,8 @@ func runC16(r *rep.Report, thorough bool) error {
 			"ADD CHECK (V = #[IE.IA] OR V = #[IE.IB])", "ADD CHECK (S = #[SE.SA])", "ADD CHECK (S <> #[SE.SB])", "ADD FOREIGN KEY (IdRepas) REFERENCES Repas ON DELETE CASCADE",
 			"CREATE INDEX ON Repas (Order)", "ADD UNIQUE(IdRepas, IdTable1)", "ALTER TABLE RepasTable1 ADD x", "ADD CHECK (Repass = 1 AND MyRepas = 2 AND Repas_x = 3 AND Repas.Id = 4)",
 			"ADD CHECK (V = #[IE.ic])", "ADD CHECK (V = #[IE.])", "ADD CHECK (V = #[IE.IA)", "ADDX", " ADD CHECK (x)", "add check (x)", "REFERENCES Table1 REFERENCES Repas", "x REFERENCES  Repas", "#[SE.SA]#[IE.IA]",
+			// enum values that are themselves table names: literals are not rewritten
+			"ADD CHECK (S = #[SE.SC])", "ADD CHECK (S IN (#[SE.SC], #[SE.SD]) AND Repas.Id > 0)", "CREATE INDEX ON Repas (S) WHERE S = #[SE.SD]",
 		}
 		for _, ta := range tablesAna {
 			for _, c := range contents {
